@@ -8,6 +8,7 @@ from harness import kcommon
 
 class H(Harness):
     ID = 'C06'
+    ANCHOR_FILES = ['epydemic/synchronousdynamics.py', 'epydemic/networkdynamics.py', 'epydemic/process.py']
     TIE_IMPORT = kcommon.TIE_IMPORT
     CHECK_FN = kcommon.CHECK_FN
     VO_TARGETS = ['Properties/C06.vo', 'Tie/Kernel.vo']
